@@ -70,9 +70,9 @@ type typePool struct {
 	ext  bool
 }
 
-var kindIdx = map[string]int{"T": 6, "P": 6, "N": 4, "S": 4, "L": 6, "M": 6, "G": 6, "W": 4, "U": 4, "I": 3, "A": 3, "X": 3, "F": 3, "int": 1, "string": 1}
+var kindIdx = map[string]int{"T": 6, "P": 6, "N": 4, "S": 4, "L": 6, "M": 6, "G": 6, "W": 4, "U": 4, "V": 4, "I": 3, "A": 3, "X": 3, "F": 3, "int": 1, "string": 1}
 var localKinds = []string{"T", "T", "T", "P", "P", "N", "S", "L", "M", "G", "I", "A", "X", "F", "int", "string"}
-var extKinds = []string{"W", "W", "U", "U", "int", "string"}
+var extKinds = []string{"W", "W", "U", "U", "V", "V", "int", "string"}
 
 // fresh returns a type not yet used in this directive; extOnly restricts to
 // types an imported function may mention.
@@ -81,7 +81,7 @@ func (p *typePool) fresh(t *rapid.T, extOnly bool) (rt.TypeRef, bool) {
 	if extOnly {
 		kinds = extKinds
 	} else if p.ext {
-		kinds = append(append([]string{}, localKinds...), "W", "U")
+		kinds = append(append([]string{}, localKinds...), "W", "U", "V")
 	}
 	for try := 0; try < 40; try++ {
 		k := kinds[uniform(t, "kind", len(kinds))]
@@ -100,7 +100,7 @@ func (p *typePool) fresh(t *rapid.T, extOnly bool) (rt.TypeRef, bool) {
 
 func isExtType(t rt.TypeRef) bool {
 	switch t.K {
-	case "W", "U", "int", "string":
+	case "W", "U", "V", "int", "string":
 		return true
 	}
 	return false
